@@ -168,20 +168,20 @@ MEM == Fam("mem",
   "!0 = !{i32 1}\n!1 = !{}\n",
   "define void @f(i32* %p, i32 %v, i64 %n) {\n{inst}\n  ret void\n}\n",
   << Slot("inst", <<
-       "  %a = alloca i32",
-       "  %a = alloca inalloca i32",
-       "  %a = alloca swifterror i8*",
-       "  %a = alloca i32, i64 %n",
-       "  %a = alloca i32, align 16",
-       "  %a = alloca i32, i64 %n, align 8, addrspace(0)",
-       "  %a = alloca i32, !foo !0",
-       "  %l = load i32, i32* %p",
-       "  %l = load volatile i32, i32* %p, align 4",
-       "  %l = load i32, i32* %p, align 4, !nontemporal !0, !invariant.load !1",
-       "  %l = load atomic i32, i32* %p unordered, align 4",
-       "  %l = load atomic volatile i32, i32* %p syncscope(\"singlethread\") seq_cst, align 4",
-       "  %l = load atomic i32, i32* %p monotonic, align 4",
-       "  %l = load atomic i32, i32* %p acquire, align 4",
+       "  %a = alloca i32\n  store i32* %a, i32** undef",
+       "  %a = alloca inalloca i32\n  store i32* %a, i32** undef",
+       "  %a = alloca swifterror i8*\n  store i8** %a, i8*** undef",
+       "  %a = alloca i32, i64 %n\n  store i32* %a, i32** undef",
+       "  %a = alloca i32, align 16\n  store i32* %a, i32** undef",
+       "  %a = alloca i32, i64 %n, align 8, addrspace(0)\n  store i32* %a, i32** undef",
+       "  %a = alloca i32, !foo !0\n  store i32* %a, i32** undef",
+       "  %l = load i32, i32* %p\n  store i32 %l, i32* undef",
+       "  %l = load volatile i32, i32* %p, align 4\n  store i32 %l, i32* undef",
+       "  %l = load i32, i32* %p, align 4, !nontemporal !0, !invariant.load !1\n  store i32 %l, i32* undef",
+       "  %l = load atomic i32, i32* %p unordered, align 4\n  store i32 %l, i32* undef",
+       "  %l = load atomic volatile i32, i32* %p syncscope(\"singlethread\") seq_cst, align 4\n  store i32 %l, i32* undef",
+       "  %l = load atomic i32, i32* %p monotonic, align 4\n  store i32 %l, i32* undef",
+       "  %l = load atomic i32, i32* %p acquire, align 4\n  store i32 %l, i32* undef",
        "  store i32 %v, i32* %p",
        "  store volatile i32 %v, i32* %p, align 4",
        "  store i32 %v, i32* %p, align 4, !nontemporal !0",
@@ -192,27 +192,27 @@ MEM == Fam("mem",
        "  fence release",
        "  fence acq_rel",
        "  fence syncscope(\"singlethread\") seq_cst",
-       "  %c = cmpxchg i32* %p, i32 %v, i32 7 monotonic monotonic",
-       "  %c = cmpxchg weak volatile i32* %p, i32 %v, i32 7 syncscope(\"singlethread\") acq_rel acquire, align 4",
-       "  %c = cmpxchg i32* %p, i32 %v, i32 7 seq_cst seq_cst, !foo !0",
-       "  %c = cmpxchg i32* %p, i32 %v, i32 7 release monotonic",
-       "  %r = atomicrmw xchg i32* %p, i32 %v monotonic",
-       "  %r = atomicrmw add i32* %p, i32 %v acquire",
-       "  %r = atomicrmw sub i32* %p, i32 %v release",
-       "  %r = atomicrmw and i32* %p, i32 %v acq_rel",
-       "  %r = atomicrmw nand i32* %p, i32 %v seq_cst",
-       "  %r = atomicrmw or i32* %p, i32 %v monotonic",
-       "  %r = atomicrmw xor i32* %p, i32 %v monotonic",
-       "  %r = atomicrmw max i32* %p, i32 %v monotonic",
-       "  %r = atomicrmw min i32* %p, i32 %v monotonic",
-       "  %r = atomicrmw umax i32* %p, i32 %v monotonic",
-       "  %r = atomicrmw umin i32* %p, i32 %v monotonic",
-       "  %r = atomicrmw volatile add i32* %p, i32 %v syncscope(\"singlethread\") seq_cst, align 4",
-       "  %fp = bitcast i32* %p to float*\n  %r = atomicrmw fadd float* %fp, float 1.0 monotonic",
-       "  %fp = bitcast i32* %p to float*\n  %r = atomicrmw fsub float* %fp, float 1.0 monotonic",
-       "  %g = getelementptr i32, i32* %p, i64 %n",
-       "  %g = getelementptr inbounds i32, i32* %p, i64 1",
-       "  %s = bitcast i32* %p to { i32, [4 x i8] }*\n  %g = getelementptr inbounds { i32, [4 x i8] }, { i32, [4 x i8] }* %s, i64 0, i32 1, i64 %n"
+       "  %c = cmpxchg i32* %p, i32 %v, i32 7 monotonic monotonic\n  store { i32, i1 } %c, { i32, i1 }* undef",
+       "  %c = cmpxchg weak volatile i32* %p, i32 %v, i32 7 syncscope(\"singlethread\") acq_rel acquire, align 4\n  store { i32, i1 } %c, { i32, i1 }* undef",
+       "  %c = cmpxchg i32* %p, i32 %v, i32 7 seq_cst seq_cst, !foo !0\n  store { i32, i1 } %c, { i32, i1 }* undef",
+       "  %c = cmpxchg i32* %p, i32 %v, i32 7 release monotonic\n  store { i32, i1 } %c, { i32, i1 }* undef",
+       "  %r = atomicrmw xchg i32* %p, i32 %v monotonic\n  store i32 %r, i32* undef",
+       "  %r = atomicrmw add i32* %p, i32 %v acquire\n  store i32 %r, i32* undef",
+       "  %r = atomicrmw sub i32* %p, i32 %v release\n  store i32 %r, i32* undef",
+       "  %r = atomicrmw and i32* %p, i32 %v acq_rel\n  store i32 %r, i32* undef",
+       "  %r = atomicrmw nand i32* %p, i32 %v seq_cst\n  store i32 %r, i32* undef",
+       "  %r = atomicrmw or i32* %p, i32 %v monotonic\n  store i32 %r, i32* undef",
+       "  %r = atomicrmw xor i32* %p, i32 %v monotonic\n  store i32 %r, i32* undef",
+       "  %r = atomicrmw max i32* %p, i32 %v monotonic\n  store i32 %r, i32* undef",
+       "  %r = atomicrmw min i32* %p, i32 %v monotonic\n  store i32 %r, i32* undef",
+       "  %r = atomicrmw umax i32* %p, i32 %v monotonic\n  store i32 %r, i32* undef",
+       "  %r = atomicrmw umin i32* %p, i32 %v monotonic\n  store i32 %r, i32* undef",
+       "  %r = atomicrmw volatile add i32* %p, i32 %v syncscope(\"singlethread\") seq_cst, align 4\n  store i32 %r, i32* undef",
+       "  %fp = bitcast i32* %p to float*\n  %r = atomicrmw fadd float* %fp, float 1.0 monotonic\n  store float %r, float* undef",
+       "  %fp = bitcast i32* %p to float*\n  %r = atomicrmw fsub float* %fp, float 1.0 monotonic\n  store float %r, float* undef",
+       "  %g = getelementptr i32, i32* %p, i64 %n\n  store i32* %g, i32** undef",
+       "  %g = getelementptr inbounds i32, i32* %p, i64 1\n  store i32* %g, i32** undef",
+       "  %s = bitcast i32* %p to { i32, [4 x i8] }*\n  %g = getelementptr inbounds { i32, [4 x i8] }, { i32, [4 x i8] }* %s, i64 0, i32 1, i64 %n\n  store i8* %g, i8** undef"
      >>) >>,
   {}, FALSE)
 
